@@ -256,6 +256,37 @@ pub fn structured(orig: &[u8], map: &ProofMap, rng: &mut Rng, digest: usize) -> 
                 out.push(Mutant { class: format!("blob-shrink-element:{}", generic(&f.name)), bytes: b });
             }
         }
+        // whole rows added to / removed from the opened tables: query sets hold num_unique_queries
+        // rows, FRI layers rows of folding-factor elements
+        let nuq = field("num_unique_queries").map(|f| orig[f.off] as usize).unwrap_or(0);
+        let folding = field("context.options.fri_folding").map(|f| orig[f.off] as usize).unwrap_or(0);
+        for f in map.fields.iter().filter(|f| f.kind == Kind::Blob && f.name.ends_with(".values")) {
+            let row = if f.name.starts_with("fri.") { folding * elem } else if nuq > 0 && f.len % nuq == 0 { f.len / nuq } else { 0 };
+            if row == 0 || f.len < row {
+                continue;
+            }
+            let end = f.off + f.len;
+            // duplicate the last row / the first row at the end
+            for (what, src) in [("last", end - row), ("first", f.off)] {
+                let mut b = orig.to_vec();
+                b.splice(end..end, orig[src..src + row].to_vec());
+                fix_lengths(map, &mut b, f.off, row as isize);
+                out.push(Mutant { class: format!("table-row-added({what} row repeated):{}", generic(&f.name)), bytes: b });
+            }
+            let mut b = orig.to_vec();
+            b.drain(end - row..end);
+            fix_lengths(map, &mut b, f.off, -(row as isize));
+            out.push(Mutant { class: format!("table-row-removed:{}", generic(&f.name)), bytes: b });
+            // two rows exchanged (content reordered, sizes unchanged)
+            if f.len >= 2 * row && orig[f.off..f.off + row] != orig[end - row..end] {
+                let mut b = orig.to_vec();
+                let first = orig[f.off..f.off + row].to_vec();
+                let last = orig[end - row..end].to_vec();
+                b[f.off..f.off + row].copy_from_slice(&last);
+                b[end - row..end].copy_from_slice(&first);
+                out.push(Mutant { class: format!("table-rows-exchanged:{}", generic(&f.name)), bytes: b });
+            }
+        }
         // out-of-domain trace frame re-encoded with another frame size (1, 3, 4 rows per column), the
         // element count kept consistent with the frame-size byte; one column added / removed
         if let Some(f) = field("ood.trace_states") {
